@@ -3322,6 +3322,39 @@ class SyncEngine:
             return self.evaluator(st, params).ev(tu.kids(hi)[1])
         return None
 
+    def storage_iter(self, e):
+        """'begin' / 'end' if e is dataBuf.begin() / dataBuf.end()"""
+        tu = self.tu
+        x = tu.strip(e, casts=True)
+        hops = 0
+        while x is not None and hops < 4 and x.get('kind') in ('CXXConstructExpr', 'MaterializeTemporaryExpr', 'CXXBindTemporaryExpr') \
+                and len(tu.kids(x)) == 1:
+            x = tu.strip(tu.kids(x)[0], casts=True)
+            hops += 1
+        if x is not None and x.get('kind') == 'CXXMemberCallExpr':
+            sd, obj, args = tu.call_parts(x)
+            nm = sd.get('q', '').split('::')[-1]
+            if self.is_storage(obj) and not args and nm in ('begin', 'cbegin', 'end', 'cend'):
+                return 'begin' if nm in ('begin', 'cbegin') else 'end'
+        return None
+
+    def begin_plus(self, e, ev):
+        """n if e is dataBuf.begin() + n"""
+        tu = self.tu
+        x = tu.strip(e, casts=True)
+        hops = 0
+        while x is not None and hops < 4 and x.get('kind') in ('CXXConstructExpr', 'MaterializeTemporaryExpr', 'CXXBindTemporaryExpr') \
+                and len(tu.kids(x)) == 1:
+            x = tu.strip(tu.kids(x)[0], casts=True)
+            hops += 1
+        if x is not None and x.get('kind') == 'CXXOperatorCallExpr' and tu.sd(x).get('q', '').split('::')[-1] == 'operator+':
+            ks = tu.kids(x)[1:]
+            if len(ks) == 2 and self.storage_iter(ks[0]) == 'begin':
+                return ev.ev(ks[1])
+        if self.storage_iter(e) == 'begin':
+            return Poly.const(0)
+        return None
+
     def mutate(self, fn, st, n, name, args, params, throws):
         if throws:
             self.throw_point(fn, st, n, '`%s`' % self.tu.show(n))
@@ -3338,6 +3371,14 @@ class SyncEngine:
             st.ssize = old
         elif name in ('push_back', 'emplace_back'):
             st.ssize = old + 1
+        elif name == 'insert' and len(args) == 3 and self.storage_iter(args[0]) == 'end':
+            v = ev.ev(args[1])               # insert(end(), count, value)
+            st.ssize = old + v if v is not None else self.fresh(st, 'n')
+        elif name == 'erase' and len(args) == 2 and self.storage_iter(args[1]) == 'end' and \
+                self.begin_plus(args[0], ev) is not None:
+            st.ssize = self.begin_plus(args[0], ev)      # erase(begin() + n, end())
+        elif name == 'swap-empty':
+            st.ssize = Poly.const(0)
         elif name == 'pop_back':
             st.ssize = old - 1
         else:
@@ -3440,6 +3481,17 @@ class SyncEngine:
                         if nm not in STORAGE_MUTATORS:
                             raise Undecided('`%s` on the storage member is not modelled' % tu.show(n))
                         self.mutate(fn, st, n, nm, args, params, STORAGE_MUTATORS[nm])
+                        continue
+                    if nm == 'swap' and len(args) == 1 and self.is_storage(args[0]):
+                        o = tu.strip(obj, casts=True) if obj is not None else None
+                        hops = 0
+                        while o is not None and hops < 4 and o.get('kind') in ('MaterializeTemporaryExpr', 'CXXBindTemporaryExpr') \
+                                and tu.kids(o):
+                            o = tu.strip(tu.kids(o)[0], casts=True)
+                            hops += 1
+                        empty = o is not None and o.get('kind') in ('CXXTemporaryObjectExpr', 'CXXConstructExpr') and \
+                            not [a for a in tu.kids(o) if a.get('kind') != 'CXXDefaultArgExpr']
+                        self.mutate(fn, st, n, 'swap-empty' if empty else 'swap', [], params, False)
                         continue
                     if obj is not None and tu.is_this(tu.strip(obj, casts=True)):
                         if nm == 'setPtr' and len(args) == 2:
@@ -3553,7 +3605,8 @@ def check_buffer_sync(ctx, tu):
         ctx.undecided(R, short(bt), 'the buffer type does not have the shape "AbstractArray base + one std::vector member"', '?')
         return
     fns = [f for f in tu.functions.values() if f.get('rect') == bt and tu.cfg(f) is not None and not f.get('implicit') and
-           not f.get('defaulted') and not f.get('const') and not f.get('static') and '~' not in f['q'].split('::')[-1]]
+           not f.get('defaulted') and not f.get('const') and not f.get('static') and '~' not in f['q'].split('::')[-1] and
+           f.get('access') != 'private']        # private helpers are steps of the members that call them: followed there
     n = 0
     seen = set()
     for f in sorted(fns, key=lambda f_: (f_['q'], f_.get('fty', ''))):
